@@ -88,9 +88,11 @@ def insertMem : List Tup → List Tup → List Tup × List Tup
     if cur.contains t then insertMem cur ts
     else let (c, nw) := insertMem (cur ++ [t]) ts; (c, t :: nw)
 
-/-- `delete_in_memory` (mod.rs:2364-2378): retained Vec, and the distinct tuples actually removed -/
+/-- `delete_in_memory` (mod.rs:2364-2378): retained Vec, and the distinct tuples actually removed
+    (the code walks the de-duplicated request set and keeps those present; the Vec never holds a
+    tuple twice — `insertMem` — so the present tuples that are requested are exactly that set). -/
 def deleteMem (cur ts : List Tup) : List Tup × List Tup :=
-  (cur.filter (fun x => !ts.contains x), (cur.filter (fun x => ts.contains x)).eraseDups)
+  (cur.filter (fun x => !ts.contains x), cur.filter (fun x => ts.contains x))
 
 /-- effect of a write on the live relations (used by the step relation *and* by `replay`) -/
 def applyW (live : Rel → List Tup) : Op → (Rel → List Tup)
@@ -125,7 +127,7 @@ def Inc.readc (i : Inc) (r : Rel) : Inc × Out :=
     let target := i.maxW + 1
     let i := { i with sess := fun x => (i.sess x).map (fun _ => target) }
     let keys := ((i.arr.filter (fun e => e.1 == r)).map (·.2.1)).eraseDups
-    let rows := keys.filter (fun k => ((i.arr.filter (fun e => e.1 == r && e.2.1 == k)).map (·.2.2)).foldl (· + ·) 0 > 0)
+    let rows := keys.filter (fun k => decide (((i.arr.filter (fun e => e.1 == r && e.2.1 == k)).map (·.2.2)).sum > 0))
     (i, .rows rows)
 
 inductive Res where
